@@ -738,6 +738,67 @@ func (s *c14Seq) poolMaxNonceIncl(a common.Address, epoch uint16, extra []*types
 	return n
 }
 
+// opEpochMix: a sender the pool holds nothing of submits two current-epoch transfers that cannot
+// both be paid (the second turns invalid once the first is mined) and, ahead of time, three
+// transactions for the NEXT epoch. The first transfer also reaches the other proposers. When it is
+// mined the second one may go; the next-epoch transactions have nothing to do with it.
+func (s *c14Seq) opEpochMix() *c14Op {
+	st := s.state()
+	if s.syncing || st.ValidationPeriod() != state.NonePeriod {
+		return nil
+	}
+	busy := map[common.Address]bool{}
+	for _, tx := range s.present {
+		busy[senderOf(tx)] = true
+	}
+	var from *Actor
+	for _, a := range s.w.SortedActors() {
+		if !busy[a.Addr] && a != s.p.Owner && a != s.q.Owner && a != s.w.God && c14Committed(st, a.Addr) <= 1 && st.GetBalance(a.Addr).Cmp(Dna(30)) > 0 {
+			from = a
+			if s.r.Intn(3) == 0 {
+				break
+			}
+		}
+	}
+	if from == nil {
+		return nil
+	}
+	op := &c14Op{kind: "epochmix"}
+	n := c14Committed(st, from.Addr)
+	bal := st.GetBalance(from.Addr)
+	amt := new(big.Int).Div(new(big.Int).Mul(bal, big.NewInt(60)), big.NewInt(100))
+	to := s.senders[0].Addr
+	var txs []*types.Transaction
+	for k := uint32(1); k <= 3; k++ {
+		txs = append(txs, c14Tx(s.w, from, types.SendTx, &to, s.amount(), nil, k, st.Epoch()+1, 12))
+	}
+	t1 := c14Tx(s.w, from, types.SendTx, &to, amt, nil, n+1, st.Epoch(), 12)
+	t2 := c14Tx(s.w, from, types.SendTx, &to, amt, nil, n+2, st.Epoch(), 12)
+	txs = append(txs, t1, t2)
+	var d []string
+	okNext := 0
+	for _, tx := range txs {
+		err := s.pool.AddExternalTxs(validation.MempoolTx, tx)
+		op.submitted = append(op.submitted, tx)
+		if err == nil {
+			op.accepted = append(op.accepted, tx)
+			if tx.Epoch > st.Epoch() {
+				okNext++
+			}
+		}
+		d = append(d, fmt.Sprintf("%s->%s", s.txStr(tx), c14ErrClass(err)))
+	}
+	// only the first transfer reaches the other proposers
+	s.q.TxPool.AddExternalTxs(validation.InboundTx, t1)
+	s.w.Replicas[0].TxPool.AddExternalTxs(validation.InboundTx, t1)
+	if okNext >= 2 {
+		s.out.Count("epochmix_with_next_epoch_txs_in_pool", 1)
+	}
+	s.logf("epochmix %v", d)
+	s.segment = append(s.segment, "x")
+	return op
+}
+
 // opOrderProbe: k consecutive valid transfers of a sender the pool holds nothing of are
 // submitted in a random order; after one ResetTo(head) (what StopSync performs) the pool must
 // offer the whole run, whatever the arrival order was.
@@ -1078,6 +1139,9 @@ func (s *c14Seq) step() {
 	if s.opNo == 45 || s.opNo == 400 {
 		sel = 7 // twice per scenario: push the executable txs over the block gas cap
 	}
+	if s.opNo%60 == 30 {
+		sel = 8 // current-epoch transfers that cannot both be paid + transactions for the next epoch
+	}
 	if per := s.state().ValidationPeriod(); per >= state.ShortSessionPeriod && !s.cerProbed[per] && !s.syncing {
 		if s.cerProbed == nil {
 			s.cerProbed = map[state.ValidationPeriod]bool{}
@@ -1107,6 +1171,8 @@ func (s *c14Seq) step() {
 			op = s.opOrderProbe()
 		case 7:
 			op = s.opGasProbe()
+		case 8:
+			op = s.opEpochMix()
 		}
 	})
 	if p != nil {
